@@ -380,6 +380,35 @@ pub fn body(case: &Case, out: &Shared) {
         }
     }
 
+    // ---- C11 after a transient fault that did not put the database into its error state (a failed
+    // read, a refused open of a table): one reclamation opportunity later the directory holds
+    // exactly the needed files, as in any other history. (With a recorded background error RainDB
+    // deliberately stops collecting garbage; those runs are not judged.)
+    if matches!(mode, Some(FaultMode::Transient)) && !stopped && !rt::is_poisoned() && plan.clients.is_empty() {
+        if let Some(d) = db.as_ref() {
+            let fired = fs.fault_stats().fired > 0;
+            let r = call("flush+quiesce", || {
+                let a = d.verif_flush();
+                let b = d.verif_flush();
+                let q = d.verif_wait_quiescent();
+                (a.is_ok() && b.is_ok(), q)
+            });
+            if let (true, Called::Ok((true, true))) = (fired, r) {
+                if let Called::Ok(shape) = call("shape", || d.verif_shape()) {
+                    if shape.bad_state.is_none() && !shape.has_snapshots {
+                        with_out(out, |o| o.stats.dir_checks += 1);
+                        if let Some(diff) = crate::hist::dir_diff(&fs, &shape) {
+                            if !diff.extra.is_empty() {
+                                let kinds: Vec<String> = diff.extra_kinds.iter().cloned().collect();
+                                push_finding(out, Finding::new(&["C11"], "obsolete-file-kept", &format!("after-transient-fault|{}", kinds.join("+")), format!("{}: the fault is over, the database reports no error, nothing pins a version, yet after two forced flushes and a quiesce the directory still holds {:?} (needed: {:?})", fault_label(&fs), diff.extra, diff.needed), None));
+                            }
+                        }
+                    }
+                }
+            }
+        }
+    }
+
     // ---- the fault is gone: close, reopen on the surviving files, compare ----
     let st = fs.fault_stats();
     with_out(out, |o| {
